@@ -30,6 +30,16 @@ def run(ctx):
     vlib.tlc_must_pass(ctx, res, "design run Election")
     ctx.coverage.update(states=res.distinct, transitions=res.generated, exhaustive=True)
     ctx.log("design: %d states" % res.distinct)
+    # runtime committees: the transcribed electCommitteeMembers against the committee rule, for all small registries, descriptors and
+    # permutations; the counterexample configs show the model elects full two-role committees and refuses others
+    rc = vlib.run_tlc(ctx, d, "MCCommittee", "design_committee_quick.cfg" if q else "design_committee_thorough.cfg", timeout=3000)
+    vlib.tlc_must_pass(ctx, rc, "design run Committee")
+    for inv in ("SomeFull", "SomeRefused"):
+        rv = vlib.run_tlc(ctx, d, "MCCommittee", "design_committee_vac_%s.cfg" % inv, timeout=600)
+        if rv.violated != inv:
+            raise vlib.Infra("Committee.tla is vacuous: %s not refuted (violated=%s error=%s)" % (inv, rv.violated, rv.error))
+    ctx.log("design committees: %d states; full two-role committees and refusals both reachable" % rc.distinct)
+    ctx.coverage.update(states=res.distinct + rc.distinct, transitions=res.generated + rc.generated, committee_design_states=rc.distinct)
     n = 4 if q else 40
     blocks = 150 if q else 400
     lines, sums = [], []
@@ -61,6 +71,61 @@ def run(ctx):
     rej2, _, _ = cc.validate(ctx, seg0, "TraceElection", "traceelection.cfg")
     if not rej2:
         raise vlib.Infra("self-test failed: election of frozen nodes accepted")
+    # committees actually elected in the runs (anti-vacuity) and a self-test on them: a member swapped for a node of another
+    # runtime / without the compute role, and a committee one member short, must both be rejected
+    ncomm, nback, nmax, nrefused = 0, 0, 0, 0
+    last_in = None
+    for ln in lines:
+        if '"ev":"elect_in"' in ln:
+            last_in = json.loads(ln)
+        elif '"ev":"elect_out"' in ln and last_in is not None:
+            e = json.loads(ln)
+            fresh = [c for c in e.get("committees", []) if c["valid_for"] == e["epoch"]]
+            ncomm += len(fresh)
+            nback += sum(1 for c in fresh if any(m["role"] == "backup" for m in c["members"]))
+            have = {c["rt"] for c in fresh}
+            for rt in last_in.get("runtimes", []):
+                if rt["id"] in have and (rt["cons"]["worker"]["max"] or rt["cons"]["backup"]["max"]):
+                    nmax += 1
+                if rt["id"] not in have:
+                    nrefused += 1
+    ctx.log("committees: %d elected (%d with backup workers, %d under a MaxNodes constraint), %d elections left a runtime without one" % (
+        ncomm, nback, nmax, nrefused))
+    if ncomm < 10 or nback < 1 or nrefused < 1:
+        raise vlib.Infra("vacuous run: committees %d, with backups %d, refused %d" % (ncomm, nback, nrefused))
+    for how in ("short", "stranger"):
+        seg, done, cur_in = [], False, None
+        for ln in lines:
+            if '"ev":"begin_chain"' in ln and seg and done:
+                break
+            if '"ev":"begin_chain"' in ln and not done:
+                seg = []
+            e = json.loads(ln)
+            if e.get("ev") == "elect_in":
+                cur_in = e
+            if e.get("ev") == "elect_out" and not done and cur_in is not None:
+                for c in e.get("committees", []):
+                    if c["valid_for"] != e["epoch"] or not c["members"]:
+                        continue
+                    if how == "short":
+                        c["members"] = c["members"][1:]
+                        done = True
+                    else:
+                        inside = {m["id"] for m in c["members"]}
+                        out = [x for x in cur_in["nodes"] if x["id"] not in inside and not any(r["id"] == c["rt"] for r in x["rts"])]
+                        if out:
+                            c["members"][0]["id"] = out[0]["id"]
+                            done = True
+                    if done:
+                        break
+            seg.append(json.dumps(e) + "\n")
+        if not done:
+            raise vlib.Infra("self-test (%s): no committee to forge" % how)
+        rj, _, _ = cc.validate(ctx, seg, "TraceElection", "traceelection.cfg")
+        if not rj:
+            raise vlib.Infra("self-test failed: forged committee (%s) accepted" % how)
+    ctx.coverage.update(committees_elected=ncomm, committees_with_backups=nback, committees_under_max_nodes=nmax,
+                        elections_without_committee=nrefused, selftest_forged_committees_rejected=True)
     ctx.coverage.update(traces_validated_against_impl=nv, trace_events=nev, elections=nel, blocks=cc.totals(sums)["blocks"],
                         selftest_frozen_elected_rejected=True,
                         samples=[json.loads(x) for x in lines if '"ev":"elect_out"' in x][:2])
